@@ -103,4 +103,48 @@ def openFile (bs : Bytes) : Option Opened :=
     let r := readRecs snap (body.length + 1) body
     some { dlt := linktypeToDlt (rd32 (bs.drop 20) % 65536), snaplen := snap, frames := r.1, err := r.2 }
 
+/-- a record as `PacketWriter` produces it for a reader with snapshot length `snap` -/
+structure RecWf (snap : Nat) (r : Rec) : Prop where
+  sec : r.sec < 4294967296
+  usec : r.usec < 4294967296
+  len : r.len < 4294967296
+  data : r.data.length = r.caplen
+  cap : r.caplen ≤ snap
+
+/-- the frame libpcap delivers for a stored record -/
+def frameOfRec (r : Rec) : Frame :=
+  { tv := ⟨toI32 r.sec, toI32 r.usec⟩, caplen := r.caplen, len := r.len, data := r.data }
+
+/-! ## what the theorems assume about libpcap
+
+  C17's theorems are about libtins' code on top of libpcap.  Everything they use about libpcap's savefile code is
+  collected here as named hypotheses; the byte-level functions above (`encodeFile`, `openFile`) are one
+  implementation that satisfies them (`modelSavefile_facts`, proved in LemmasPcap.lean), and that implementation is
+  what the harness compares with the real library on every run: the bytes `pcap_dump` wrote against `encodeFile`
+  (size and hash of the whole file, every link type of the writer's API, time stamps at the boundaries of the 32-bit
+  fields) and the frames `pcap_open_offline` + the sniffing methods deliver against `openFile`.
+  The reader-side facts (one call of a sniffing method with `cnt = 1`) are `ReadFacts` in Session.lean. -/
+
+/-- an implementation of the savefile calls libtins makes -/
+structure Savefile where
+  /-- `pcap_open_dead(dlt, snaplen)`, `pcap_dump_open`, one `pcap_dump` per record, `pcap_dump_close`: the file -/
+  dump : Nat → Nat → List Rec → Bytes
+  /-- `pcap_open_offline` and `pcap_next_packet` until the end: link type, snapshot length, frames, clean end or error;
+      `none`: the open fails -/
+  openOffline : Bytes → Option Opened
+
+/-- **S1 (dump/open round trip).**  A file produced by `pcap_dump` from records whose 32-bit fields hold their
+    values, whose data has `caplen` bytes and whose `caplen` is within the declared snapshot length (itself positive
+    and at most `MAXIMUM_SNAPLEN`), for a link type that survives the DLT ↦ LINKTYPE mapping, opens with that link
+    type and snapshot length and delivers one frame per record, in order, with the stored bytes, lengths and the
+    time fields read as signed 32-bit values; then the file ends cleanly. -/
+structure SavefileFacts (L : Savefile) : Prop where
+  roundtrip : ∀ (dlt snap : Nat), dltToLinktype dlt < 65536 → linktypeToDlt (dltToLinktype dlt) = dlt →
+    0 < snap → snap ≤ maxSnaplen → ∀ (recs : List Rec), (∀ r ∈ recs, RecWf snap r) →
+    L.openOffline (L.dump dlt snap recs) =
+      some { dlt := dlt, snaplen := snap, frames := recs.map frameOfRec, err := false }
+
+/-- the byte-level model of this file as a `Savefile` -/
+def modelSavefile : Savefile := { dump := encodeFile, openOffline := openFile }
+
 end Tins.Capture
